@@ -8,6 +8,7 @@ every operation.
 """
 import collections.abc
 import copy
+import gc
 import json
 
 from sim import rng
@@ -129,6 +130,13 @@ class C16(BaseCheck):
             case['init_as'] = k.choice(['pairs', 'dict', 'none'])
         else:
             case['gver'] = k.choice([None, '2.0', '2.0', '3.0'])
+            # where the map came from and who still holds its grid: the map of a slice or of a copy of the grid, and
+            # a map whose grid the caller let go of (`md = hszinc.parse(text).metadata`) are maps like any other
+            pk = rng.stream(run_seed, 'prov')
+            if pk.random() < 0.3:
+                case['prov'] = pk.choice(['slice', 'deepcopy'] if case['gver'] else ['deepcopy'])
+            if pk.random() < 0.25:
+                case['drop_grid'] = True
             case['init_as'] = k.choice(['pairs', 'dict', 'sd', 'none'])
         ninit = k.choice([0, 0, 1, 2, 3, nkeys, nkeys])
         init_keys = keys[:]
@@ -296,6 +304,16 @@ class C16(BaseCheck):
                 else:
                     grid = hs.Grid(version=gver, columns=[('c', src), ('d', [])])
                 m = grid.column['c']
+            prov = case.get('prov')
+            if prov:
+                stats['prov.' + prov] = 1
+                grid = grid[0:0] if prov == 'slice' else copy.deepcopy(grid)
+                m = grid.metadata if cls == 'gmeta' else grid.column if cls == 'gcols' else grid.column['c']
+            if case.get('drop_grid'):
+                stats['grid_dropped'] = 1
+                grid = None
+                src = None
+                gc.collect()
         return m, grid, refuses
 
     def _apply(self, m, o):
@@ -752,6 +770,14 @@ class C16(BaseCheck):
                 c = copy.deepcopy(case)
                 c['ops'][j]['v'] = {'cm': o['v']['cml']}
                 yield c
+
+    def localise(self, case):
+        if case.get('observe_every', 1) != 1 or case.get('two'):
+            c = {k: v for k, v in case.items() if k != 'two'}
+            c['observe_every'] = 1
+            yield c
+            if case.get('two'):
+                yield dict(c, two=True)
 
     def post_sweep(self, agg):
         pairs = [k for k in agg.stats if k.startswith('pair.')]
